@@ -205,7 +205,10 @@ GLeaves == <<
     [dcall |-> TRUE] @@ With(ListF(NoF), [default |-> ListV(<<IntV(1)>>)]),
     [dcall |-> TRUE] @@ With(DictF(StringF, IntF), [default |-> D1(<<"k">>, IntV(1))]),
     With(LogLevelF, [default |-> s(<<"i", "n", "f", "o">>)]),
-    With(PortF, [default |-> IntV(8080)]) >>
+    With(PortF, [default |-> IntV(8080)]),
+    \* typed containers that are unset (no default): nothing to operate on until a value is assigned
+    DictF(StringF, With(IntF, [hasmin |-> TRUE, min |-> 0])),
+    ListF(With(IntF, [hasmin |-> TRUE, min |-> 0])) >>
 GSubs == <<
     SchemaF(<< <<"x", With(IntF, [default |-> IntV(1), required |-> TRUE])>>, <<"y", With(StringF, [choices |-> << <<"u">>, <<"v">> >>])>> >>),
     [validators |-> <<"x_not_3">>] @@ SchemaF(<< <<"x", With(IntF, [default |-> IntV(1)])>> >>),
